@@ -22,7 +22,7 @@ TECHNIQUE = ('Hypothesis-generated workbooks and a fixed catalogue of '
              'through the PYCEL_VERIF hook plus the metamorphic relation '
              '"influence implies ancestor" (perturb each constant, fresh '
              'compile, compare)'
-             '; defined name = its definition (equivalence pairs) and bounded twins of unbounded references in the catalogue')
+             '; defined name = its definition (equivalence pairs) and bounded twins of unbounded references in the catalogue; the range operator between written references = the written rectangle')
 LEVEL_TEXT = ('Exploration: every reference form the property lists (plain, '
               'sheet-qualified, quoted sheet, absolute, range, intersection, '
               'multi-colon, defined name incl. multi-area, unbounded, ROW/'
